@@ -400,7 +400,153 @@ pub fn check_history<F: Fl>(h: &[COp], seed: u64, ctor: u8, dot_attr: bool) -> R
     }
 }
 
+/// Containers with many keys (hash-map growth, thresholds): chains of k nodes,
+/// all inserted, every view checked, then every key removed in turn.
+pub fn many_keys<F: Fl>(job: &Job, kmax: usize, out: &mut Out) {
+    let prop = job.property.as_str();
+    for k in 1..=kmax {
+        for seed in [0u64, 1] {
+            crate::progress::set_case(|| json!({"kind":"cont-many","flavour":F::NAME,"k":k,"seed":seed}).to_string());
+            out.stats.inc("evaluations");
+            out.stats.inc("states");
+            out.stats.inc("transitions");
+            if k >= 17 {
+                out.stats.inc("nontrivial");
+            }
+            if let Err((code, what)) = check_many::<F>(k, seed) {
+                out.report(Violation {
+                    property: prop.into(),
+                    engine: "cont".into(),
+                    flavour: F::NAME.into(),
+                    class: format!("many-keys/{}", code),
+                    what: format!("chain of {} nodes in a container (hash seed {}): {}", k, seed, what),
+                    case: json!({"kind":"cont-many","flavour":F::NAME,"k":k,"seed":seed}),
+                    order: k as u64,
+                });
+            }
+        }
+    }
+}
+
+pub fn check_many<F: Fl>(k: usize, seed: u64) -> Result<(), Bad> {
+    let r = guarded(|| -> Result<(), Bad> {
+        if F::SYNC {
+            ensure_monitor();
+        }
+        let nodes: Vec<F::Node> = (0..k).map(|i| F::node(i as K, Val::new(default_val(i as K)))).collect();
+        for i in 0..k.saturating_sub(1) {
+            F::connect(&nodes[i], &nodes[i + 1], (i % 100) as E);
+        }
+        set_seed(Some(seed));
+        let mut g = F::g_new();
+        set_seed(None);
+        for (i, nd) in nodes.iter().enumerate() {
+            if !F::g_insert(&mut g, nd.clone()) {
+                return bad("insert-refused", format!("insert of fresh key {} refused", i));
+            }
+            if F::g_len(&g) != i + 1 {
+                return bad("len", format!("len() = {} after {} inserts", F::g_len(&g), i + 1));
+            }
+        }
+        let mut members: BTreeSet<K> = (0..k as K).collect();
+        let keys = |v: Vec<F::Node>| -> (usize, BTreeSet<K>) { (v.len(), v.iter().map(F::key).collect()) };
+        for step in 0..=k {
+            // views
+            if F::g_len(&g) != members.len() || F::g_is_empty(&g) != members.is_empty() {
+                return bad("len", format!("len() = {} with {} members", F::g_len(&g), members.len()));
+            }
+            for i in 0..=k as K {
+                let m = members.contains(&i);
+                if F::g_contains(&g, i) != m {
+                    return bad("contains", format!("contains({}) = {}", i, !m));
+                }
+                match F::g_get(&g, i) {
+                    Some(n) if m && F::key(&n) == i && F::pval(&n) == default_val(i) => {
+                        if F::key(&F::g_index(&g, i)) != i {
+                            return bad("index", format!("g[{}] has another key", i));
+                        }
+                    }
+                    None if !m => {}
+                    other => return bad("get", format!("get({}) = {:?}, member: {}", i, other.map(|n| F::key(&n)), m)),
+                }
+            }
+            let (n1, s1) = keys(F::g_to_vec(&g));
+            if n1 != members.len() || s1 != members {
+                return bad("to_vec", format!("to_vec() has {} nodes {:?}, members {:?}", n1, s1, members));
+            }
+            let it = F::g_iter(&g);
+            if it.len() != members.len() || it.iter().any(|(kk, n)| *kk != F::key(n)) || it.iter().map(|(kk, _)| *kk).collect::<BTreeSet<K>>() != members {
+                return bad("iter", "iter() does not list exactly the members".to_string());
+            }
+            // chain i -> i+1: node i has an incoming edge iff i >= 1, an outgoing one iff i + 1 < k
+            let has_in = |i: K| if F::DIRECTED { i >= 1 } else { k >= 2 };
+            let has_out = |i: K| if F::DIRECTED { (i as usize) + 1 < k } else { k >= 2 };
+            if let Some(r) = F::g_roots(&g) {
+                let e: BTreeSet<K> = members.iter().cloned().filter(|i| !has_in(*i)).collect();
+                let (n, s) = keys(r);
+                if s != e || n != e.len() {
+                    return bad("roots", format!("roots() = {:?}, expected {:?}", s, e));
+                }
+            }
+            if let Some(r) = F::g_leaves(&g) {
+                let e: BTreeSet<K> = members.iter().cloned().filter(|i| !has_out(*i)).collect();
+                let (n, s) = keys(r);
+                if s != e || n != e.len() {
+                    return bad("leaves", format!("leaves() = {:?}, expected {:?}", s, e));
+                }
+            }
+            let e: BTreeSet<K> = members.iter().cloned().filter(|i| !has_in(*i) && !has_out(*i)).collect();
+            let (n, s) = keys(F::g_orphans(&g));
+            if s != e || n != e.len() {
+                return bad("orphans", format!("orphans() = {:?}, expected {:?}", s, e));
+            }
+            // DOT: one node statement per member, one edge statement per iterated edge
+            let stmts = dot_statements(&F::g_to_dot(&g))?;
+            let mut exp: Vec<String> = members.iter().map(|i| format!("{}", i)).collect();
+            for i in &members {
+                for e in F::edges_into_iter(&nodes[*i as usize]) {
+                    let a = F::edge_accessors(&e);
+                    exp.push(format!("{} -> {}", a.0, a.1));
+                }
+            }
+            let mut got = stmts;
+            got.sort();
+            exp.sort();
+            if got != exp {
+                return bad("to_dot", format!("to_dot() has {} statements, expected {}", got.len(), exp.len()));
+            }
+            if let Some(txt) = F::g_to_dot_attr(&g, &|| None, &|i| Some(vec![("l".to_string(), format!("n{}", i))]), &|_, _, _| None) {
+                let n_attr = dot_statements(&txt)?.iter().filter(|l| l.contains("[l=")).count();
+                if n_attr != members.len() {
+                    return bad("to_dot_with_attr", format!("{} node statements carry the attribute, {} members", n_attr, members.len()));
+                }
+            }
+            // remove the next key (middle-out order)
+            if step < k {
+                let victim = ((step * 7) % k) as K;
+                let victim = if members.contains(&victim) { victim } else { *members.iter().next().unwrap() };
+                match F::g_remove(&mut g, victim) {
+                    Some(n) if F::key(&n) == victim => {}
+                    other => return bad("remove", format!("remove({}) = {:?}", victim, other.map(|n| F::key(&n)))),
+                }
+                members.remove(&victim);
+                if F::g_remove(&mut g, victim).is_some() {
+                    return bad("remove-twice", format!("second remove({}) returned a node", victim));
+                }
+            }
+        }
+        Ok(())
+    });
+    match r {
+        Ok(x) => x,
+        Err(f) => bad(f.kind(), f.msg().to_string()),
+    }
+}
+
 pub fn explore<F: Fl>(job: &Job, out: &mut Out) {
+    if let Some(k) = job.params.get("many").and_then(|v| v.as_u64()) {
+        return many_keys::<F>(job, k as usize, out);
+    }
     let p: ContParams = serde_json::from_value(job.params.clone()).expect("cont params");
     let prop = job.property.as_str();
     let alpha = c_alphabet();
@@ -493,6 +639,13 @@ fn live_edges_of(h: &[COp]) -> usize {
 
 pub fn replay<F: Fl>(prop: &str, case: &Value) -> Vec<Violation> {
     let mut out = Out::new();
+    if case["kind"] == "cont-many" {
+        let (k, seed) = (case["k"].as_u64().unwrap() as usize, case["seed"].as_u64().unwrap());
+        if let Err((code, what)) = check_many::<F>(k, seed) {
+            out.report(Violation { property: prop.into(), engine: "cont".into(), flavour: F::NAME.into(), class: format!("many-keys/{}", code), what, case: case.clone(), order: 0 });
+        }
+        return out.viols.into_values().collect();
+    }
     let h: Vec<COp> = serde_json::from_value(case["history"].clone()).expect("history");
     let seed = case["seed"].as_u64().unwrap_or(0);
     let ctor = case["ctor"].as_u64().unwrap_or(0) as u8;
